@@ -28,6 +28,23 @@ MC_LAIR = {"module": "MC_Lair", "quick": "MC_Lair_quick.cfg", "thorough": "MC_La
 MC_LAIR_SCHED = {"module": "MC_Lair", "quick": "MC_Lair_sched.cfg", "thorough": "MC_Lair_sched5.cfg", "workers": 4,
                  "emits": "MC_Lair_sched", "timeout": {"quick": 600, "thorough": 3000}}
 
+def _ep(kind, sched):
+    d = {"suite": "epochs", "trace": "Trace_Epochs", "cfg": "Trace_Epochs.cfg", "extra": {"kind": kind}, "procs": 4}
+    if sched:
+        d.update({"sched_from": f"MC_Epochs_{kind}_sched", "extra": {"kind": kind, "mode": "sched"},
+                  "quick": {"runs": 1200}, "thorough": {"runs": 0}})
+    else:
+        d.update({"quick": {"runs": 60, "ops": 40}, "thorough": {"runs": 1500, "ops": 80}})
+    return d
+
+
+def _mc_ep(kind, sched):
+    if sched:
+        return {"module": "MC_Epochs", "quick": f"MC_Epochs_{kind}_sched.cfg", "thorough": f"MC_Epochs_{kind}_sched.cfg",
+                "workers": 4, "emits": f"MC_Epochs_{kind}_sched"}
+    return {"module": "MC_Epochs", "quick": f"MC_Epochs_{kind}.cfg", "thorough": f"MC_Epochs_{kind}.cfg", "workers": 6}
+
+
 PROPS = {
     "C01": {"mc": [MC_POOL], "suites": [POOL_SUITE]},
     "C02": {"mc": [MC_CPMATH], "suites": [MATH_CP, POOL_SUITE]},
@@ -35,6 +52,8 @@ PROPS = {
     "C06": {"mc": [MC_VAULT], "suites": [VAULT_SUITE]},
     "C07": {"mc": [MC_POOL, MC_VAULT], "suites": [POOL_SUITE, VAULT_SUITE]},
     "C08": {"mc": [MC_LAIR, MC_LAIR_SCHED], "suites": [LAIR_SCHED, LAIR_RANDOM]},
+    "C20": {"mc": [_mc_ep("manager", False), _mc_ep("distributor", False), _mc_ep("manager", True), _mc_ep("distributor", True)],
+            "suites": [_ep("manager", True), _ep("distributor", True), _ep("manager", False), _ep("distributor", False)]},
     "C14": {"mc": [MC_POOL, MC_VAULT], "suites": [POOL_SUITE, VAULT_SUITE]},
     "C15": {"mc": [MC_POOL], "suites": [POOL_SUITE, MATH_SPREAD]},
 }
